@@ -14,7 +14,7 @@ def fileProgs : Progs := fun op => match op with
 /-- lock operations of the `keepalive` backend as extracted from the real class (jug/backends) -/
 def keepaliveProgs : Progs := fun op => match op with
   | .get => (.prim .exists_ [(.yes, (.ret (.bool false))), (.no, (.prim .openExcl [(.ok, (.ret (.bool true))), (.err, (.ret (.bool false)))]))])
-  | .release => (.ret .none)
+  | .release => (.prim .unlink [(.ok, (.ret .none)), (.err, (.ret .none))])
   | .isLocked => (.prim .exists_ [(.yes, (.ret (.bool true))), (.no, (.ret (.bool false)))])
   | .fail => (.prim .utimeFailed [(.ok, (.ret (.bool true))), (.err, (.ret (.bool false)))])
   | .isFailed => (.prim .exists_ [(.yes, (.prim .stat [(.err, (.ret (.bool false))), (.normal, (.ret (.bool false))), (.marked, (.ret (.bool true))), (.expired, (.ret (.bool true)))])), (.no, (.ret (.bool false)))])
